@@ -114,7 +114,10 @@ def driver(seed, count):
                     st[key] = rng.choice([[32], [32, 32], [10], [32, 10]])
         env = [rng.choice(VALS) for _ in range(6)]
         cells = [{'sheet': 'Sheet1', 'col': j + 1, 'row': 1, 'v': {'t': 'num', 'n': n, 'd': d}} for j, (n, d) in enumerate(env)]
-        evs.append({'ast': t, 'style': st, 'text': [ord(c) for c in S.formula(t, st)], 'sheet': 'Sheet1', 'cells': cells})
+        ev = {'ast': t, 'style': st, 'text': [ord(c) for c in S.formula(t, st)], 'sheet': 'Sheet1', 'cells': cells}
+        if i % 2:        # evaluated first under OTHER cell values, then the cells are set and the formula is evaluated again
+            ev['pre'] = [rng.choice(VALS) for _ in range(6)]
+        evs.append(ev)
     return evs
 
 
@@ -124,13 +127,23 @@ def record(chunk):
         cells = {f"Sheet1!{'ABCDEF'[c['col'] - 1]}1": ('value', xl.from_abs(c['v'], 'native')) for c in e['cells']}
         text = ''.join(map(chr, e['text']))
         try:
-            model, ev = xl.build_model(cells, {'Sheet1!Z1': text})
+            if 'pre' in e:
+                pre = {f"Sheet1!{'ABCDEF'[j]}1": ('value', n / d if d != 1 else n) for j, (n, d) in enumerate(e['pre'])}
+                model, ev = xl.build_model(pre, {'Sheet1!Z1': text})
+                try:
+                    ev.evaluate('Sheet1!Z1')
+                except Exception:
+                    pass
+                for a, spec in cells.items():
+                    ev.set_cell_value(a, spec[1])
+            else:
+                model, ev = xl.build_model(cells, {'Sheet1!Z1': text})
             res = xl.to_abs(ev.evaluate('Sheet1!Z1'))
         except BaseException as ex:      # noqa
             if isinstance(ex, (KeyboardInterrupt, SystemExit)):
                 raise
             res = xl.to_abs(ex)
-        out.append(dict(e, res=res))
+        out.append(dict({k: v for k, v in e.items() if k != 'pre'}, res=res))
     return out
 
 
